@@ -11,7 +11,8 @@ RULE = ("case = generic SDE (Stratonovich, 4 noise types, drawn batch/state/nois
         "possibly without the last one, gets weight zero) x optionally resumed at an output time through extra=True / "
         "extra_solver_state (optionally after a first stage run under no_grad, so the resumed state and extras carry no autograd "
         "history) x optionally a loss that also uses the returned extra state (f, z) x optionally an explicit adjoint_params "
-        "sub-list in a drawn order (only the listed tensors are compared) x entropy. "
+        "sub-list in a drawn order (only the listed tensors are compared) x optionally two backward passes through the one forward "
+        "solve (retain_graph; both passes compared) x entropy. "
         "Gradients of the loss w.r.t. y0 and every parameter from sdeint_adjoint(method='reversible_heun', "
         "adjoint_method='adjoint_reversible_heun') are compared with backprop through sdeint(method='reversible_heun'): "
         "global relative difference <= 1e-9 (per tensor, with an absolute floor of 1e-9 * largest gradient norm). "
@@ -50,7 +51,10 @@ def _case(draw, tier):
             "adjoint_params": draw(st.one_of(st.none(), st.none(), st.integers(0, 2 ** 20))),
             # regime switch: from a drawn grid time on the diffusion is a constant without state or parameters (whether g
             # carries an autograd graph then depends on t)
-            "gswitch": draw(st.sampled_from([None, None, None, 0.25, 0.5, 0.75]))}
+            "gswitch": draw(st.sampled_from([None, None, None, 0.25, 0.5, 0.75])),
+            # two backward passes through one forward solve (retain_graph=True: two losses of one trajectory); the gradients
+            # compared are those of the second pass as well as the first
+            "twice": draw(st.sampled_from([False, False, True]))}
 
 
 def strategy(tier):
@@ -114,13 +118,20 @@ def run_case(case):
         loss = (ys * w).sum()
         if case.get("use_z"):
             loss = loss + (extra[2] * wz).sum() + 0.3 * (extra[0] * wz).sum()
+        first_pass = []
+        if case.get("twice"):
+            w2 = torch.randn(ys.shape, generator=torch.Generator().manual_seed(case["wseed"] + 1), dtype=ys.dtype)
+            inputs = ([y0] if y0.requires_grad else []) + ([p_ for _, p_ in selected] if selected is not None
+                                                           else list(sde.parameters()))
+            g1 = torch.autograd.grad((ys * w2).sum(), inputs, retain_graph=True, allow_unused=True)
+            first_pass = [(f"first_pass[{k}]", x) for k, x in enumerate(g1)]
         loss.backward()
         if selected is None:
             named = [("y0", y0.grad)] + [(n_, p.grad) for n_, p in sde.named_parameters()]
         else:
             # only the tensors asked for are compared (what the others receive is C09's bookkeeping clause)
             named = [("y0", y0.grad)] + sorted(((n_, p_.grad) for n_, p_ in selected), key=lambda kv: kv[0])
-        grads.append((ys.detach(), named))
+        grads.append((ys.detach(), named + first_pass))
     (ys_a, ga), (ys_b, gb) = grads
     sig = {"noise_type": spec["noise_type"]}
     checks = 1
@@ -166,5 +177,7 @@ def run_case(case):
         labels.append("explicit_adjoint_params_sublist")
     if case.get("gswitch") is not None:
         labels.append("diffusion_regime_switch")
+    if case.get("twice"):
+        labels.append("two_backward_passes_through_one_solve")
     return Result(nontrivial=n >= 4 and len(case["cuts"]) >= 2, labels=labels, checks=checks,
                   metrics={"grad_relerr": worst, "steps": n})
